@@ -192,7 +192,7 @@ pub open spec fn def_post(var: AST, ty: Option<Name>, expr: Option<Box<AST>>, b:
     }
 }
 
-//@@ FN src/check/constrain/generate/definition.rs | free | id_from_var | props=C06,C03
+//@@ FN src/check/constrain/generate/definition.rs | free | id_from_var | props=C06,C05,C03
 //@@ REPLACE
 //@@< let mut names = vec![];
 //@@> let names: Vec<Name> = Vec::new(); /* only used inside the havocked loop */
@@ -209,8 +209,8 @@ pub open spec fn def_post(var: AST, ty: Option<Name>, expr: Option<Box<AST>>, b:
 //@@< for ($fm2, $fn2) in identifier.fields(var.pos)? { $$ }
 //@@> { identifier.fields(var.pos)?; verif_havoc_loop(constr, &mut env)?; }
     ensures
-        grows(*old(constr), *final(constr)),                                     //# constraints_are_never_dropped [C06]
-        r is Ok ==> def_post(*var, *ty, *expr, *final(constr)),                  //# definition_constraints_are_generated [C06]
+        grows(*old(constr), *final(constr)),                                     //# constraints_are_never_dropped [C06,C05]
+        r is Ok ==> def_post(*var, *ty, *expr, *final(constr)),                  //# definition_constraints_are_generated [C06,C05]
         r is Err ==> r->Err_0@.len() >= 1,                                       //# rejection_carries_a_diagnostic [C19]
 //@@ END
 
@@ -233,13 +233,13 @@ pub open spec fn stmt_post(ast: AST, env: Environment, r: Constrained, b0: Const
 #[verifier::external_body]
 pub fn verif_havoc_raise_arm(env: &Environment) -> (r: Constrained) ensures r is Err ==> r->Err_0@.len() >= 1 { unimplemented!() }
 
-//@@ FN src/check/constrain/generate/statement.rs | free | gen_stmt | props=C06,C03
+//@@ FN src/check/constrain/generate/statement.rs | free | gen_stmt | props=C06,C05,C03
 //@@ REPLACE
 //@@< Node::Raise { error } => match &error.node { $$ },
 //@@> Node::Raise { error } => verif_havoc_raise_arm(env),
     ensures
-        grows(*old(constr), *final(constr)),                                     //# constraints_are_never_dropped [C06]
-        stmt_post(*ast, *env, r, *old(constr), *final(constr)),                  //# returned_value_is_bounded_by_the_declared_return_type [C06]
+        grows(*old(constr), *final(constr)),                                     //# constraints_are_never_dropped [C06,C05]
+        stmt_post(*ast, *env, r, *old(constr), *final(constr)),                  //# returned_value_is_bounded_by_the_declared_return_type [C06,C05]
         r is Err ==> r->Err_0@.len() >= 1,                                       //# rejection_carries_a_diagnostic [C19]
 //@@ END
 
@@ -270,7 +270,7 @@ pub open spec fn fundef_constr_post(ast: AST, b: ConstrBuilder) -> bool {
     }
 }
 
-//@@ FN src/check/constrain/generate/definition.rs | free | gen_def | props=C06,C03
+//@@ FN src/check/constrain/generate/definition.rs | free | gen_def | props=C06,C05,C03
 //@@ REPLACE
 //@@< let (class, non_nullable_class_vars) = match &id.node { $$ }; $$ let body_env = body_env.raises_caught(&raises);
 //@@> let (class, body_env) = verif_havoc_fundef_preamble(env, constr)?;
@@ -278,8 +278,8 @@ pub open spec fn fundef_constr_post(ast: AST, b: ConstrBuilder) -> bool {
 //@@< if let Some(class) = class { $$ }
 //@@> if let Some(class) = class { verif_havoc_unassigned_check(&class, &body_env)?; }
     ensures
-        grows(*old(constr), *final(constr)),                                     //# constraints_are_never_dropped [C06]
-        r is Ok ==> fundef_constr_post(*ast, *final(constr)),                    //# body_is_bounded_by_the_declared_return_type [C06]
+        grows(*old(constr), *final(constr)),                                     //# constraints_are_never_dropped [C06,C05]
+        r is Ok ==> fundef_constr_post(*ast, *final(constr)),                    //# body_is_bounded_by_the_declared_return_type [C06,C05]
         r is Err ==> r->Err_0@.len() >= 1,                                       //# rejection_carries_a_diagnostic [C19]
 //@@ END
 
